@@ -41,18 +41,18 @@ func c03Ev(name string, idx int) {
 var c03Corpus = []c03Req{
 	{`{ me { name } }`, "", nil, true, true},
 	{`query A { me { id } } query B { me { name } }`, "B", nil, true, true},
-	{`{ me { name } }`, "Other", nil, false, true},                                            // a name requested that the (anonymous) document does not define
-	{`mutation { rename(name: "x") { id } }`, "M", nil, false, true},                        // the same for a mutation
-	{`query A { me { id } } query B { me { name } }`, "C", nil, false, true},               // unknown operation name
-	{`query A { me { id } } query B { me { name } }`, "", nil, false, true},               // ambiguous
-	{`{ me { name }`, "", nil, false, false},                                                  // parse error
-	{`{ me { nam } }`, "", nil, false, false},                                                 // unknown field (suggestion path)
-	{`fragment F on User { id }`, "", nil, false, false},                                      // no operation
+	{`{ me { name } }`, "Other", nil, false, true},                           // a name requested that the (anonymous) document does not define
+	{`mutation { rename(name: "x") { id } }`, "M", nil, false, true},         // the same for a mutation
+	{`query A { me { id } } query B { me { name } }`, "C", nil, false, true}, // unknown operation name
+	{`query A { me { id } } query B { me { name } }`, "", nil, false, true},  // ambiguous
+	{`{ me { name }`, "", nil, false, false},                                 // parse error
+	{`{ me { nam } }`, "", nil, false, false},                                // unknown field (suggestion path)
+	{`fragment F on User { id }`, "", nil, false, false},                     // no operation
 	{`query Q($id: ID!) { user(id: $id) { name } }`, "", map[string]any{"id": "7"}, true, true},
-	{`query Q($id: ID!) { user(id: $id) { name } }`, "", nil, false, true},                   // missing required variable
+	{`query Q($id: ID!) { user(id: $id) { name } }`, "", nil, false, true},                               // missing required variable
 	{`query Q($n: Int) { me { friends(first: $n) { id } } }`, "", map[string]any{"n": "x"}, false, true}, // wrong variable type
 	{`mutation M { rename(name: "x") { id } }`, "", nil, true, true},
-	{`{ me { ...F } } fragment F on User { id ...F }`, "", nil, false, false},                 // fragment cycle
+	{`{ me { ...F } } fragment F on User { id ...F }`, "", nil, false, false}, // fragment cycle
 }
 
 var c03Schema *ast.Schema
@@ -462,35 +462,35 @@ func Harness_C03_concurrent() {
 // one document per validation rule of the GraphQL specification (each invalid
 // only by that rule), against c03SDL
 var c03RuleDocs = []string{
-	`{ me { nam } }`,                                                        // FieldsOnCorrectType
-	`{ me { ... on ID { x } } }`,                                            // FragmentsOnCompositeTypes / KnownTypeNames
-	`{ me { friends(firs: 1) { id } } }`,                                    // KnownArgumentNames
-	`{ me @nope { id } }`,                                                   // KnownDirectives
-	`{ me { ...Missing } }`,                                                 // KnownFragmentNames
-	`subscription { me { id } }`,                                            // KnownRootType
-	`{ me { ... on Nope { id } } }`,                                         // KnownTypeNames
-	`{ me { id } } query B { me { id } }`,                                   // LoneAnonymousOperation
-	`{ me { ...F } } fragment F on User { id ...F }`,                        // NoFragmentCycles
-	`{ user(id: $id) { id } }`,                                              // NoUndefinedVariables
-	`{ me { id } } fragment Unused on User { id }`,                          // NoUnusedFragments
-	`query Q($x: Int) { me { id } }`,                                        // NoUnusedVariables
-	`{ me { a: id a: name } }`,                                              // OverlappingFieldsCanBeMerged
-	`{ me { ... on Query { me { id } } } }`,                                 // PossibleFragmentSpreads
-	`{ user { id } }`,                                                       // ProvidedRequiredArguments
-	`{ me }`,                                                                // ScalarLeafs (selection required)
-	`{ me { id { x } } }`,                                                   // ScalarLeafs (selection forbidden)
-	`{ user(id: "1", id: "2") { id } }`,                                     // UniqueArgumentNames
-	`{ me @skip(if: true) @skip(if: false) { id } }`,                        // UniqueDirectivesPerLocation
+	`{ me { nam } }`,                                 // FieldsOnCorrectType
+	`{ me { ... on ID { x } } }`,                     // FragmentsOnCompositeTypes / KnownTypeNames
+	`{ me { friends(firs: 1) { id } } }`,             // KnownArgumentNames
+	`{ me @nope { id } }`,                            // KnownDirectives
+	`{ me { ...Missing } }`,                          // KnownFragmentNames
+	`subscription { me { id } }`,                     // KnownRootType
+	`{ me { ... on Nope { id } } }`,                  // KnownTypeNames
+	`{ me { id } } query B { me { id } }`,            // LoneAnonymousOperation
+	`{ me { ...F } } fragment F on User { id ...F }`, // NoFragmentCycles
+	`{ user(id: $id) { id } }`,                       // NoUndefinedVariables
+	`{ me { id } } fragment Unused on User { id }`,   // NoUnusedFragments
+	`query Q($x: Int) { me { id } }`,                 // NoUnusedVariables
+	`{ me { a: id a: name } }`,                       // OverlappingFieldsCanBeMerged
+	`{ me { ... on Query { me { id } } } }`,          // PossibleFragmentSpreads
+	`{ user { id } }`,                                // ProvidedRequiredArguments
+	`{ me }`,                                         // ScalarLeafs (selection required)
+	`{ me { id { x } } }`,                            // ScalarLeafs (selection forbidden)
+	`{ user(id: "1", id: "2") { id } }`,              // UniqueArgumentNames
+	`{ me @skip(if: true) @skip(if: false) { id } }`, // UniqueDirectivesPerLocation
 	`{ me { ...F } } fragment F on User { id } fragment F on User { name } `, // UniqueFragmentNames
-	`query A { me { id } } query A { me { name } }`,                         // UniqueOperationNames
-	`query Q($x: Int, $x: Int) { me { friends(first: $x) { id } } }`,        // UniqueVariableNames
-	`{ me { friends(first: "one") { id } } }`,                               // ValuesOfCorrectType (wrong scalar)
-	`{ me { friends(first: {a: 1}) { id } } }`,                              // ValuesOfCorrectType (object for scalar)
-	`{ user(id: null) { id } }`,                                             // ValuesOfCorrectType (null for non-null)
-	`mutation { rename(name: 5) { id } }`,                                   // ValuesOfCorrectType (mutation)
-	`query Q($u: User) { me { id } }`,                                       // VariablesAreInputTypes
-	`query Q($n: String) { me { friends(first: $n) { id } } }`,              // VariablesInAllowedPosition
-	`query Q($id: ID) { user(id: $id) { id } }`,                             // VariablesInAllowedPosition (nullable into non-null)
+	`query A { me { id } } query A { me { name } }`,                          // UniqueOperationNames
+	`query Q($x: Int, $x: Int) { me { friends(first: $x) { id } } }`,         // UniqueVariableNames
+	`{ me { friends(first: "one") { id } } }`,                                // ValuesOfCorrectType (wrong scalar)
+	`{ me { friends(first: {a: 1}) { id } } }`,                               // ValuesOfCorrectType (object for scalar)
+	`{ user(id: null) { id } }`,                                              // ValuesOfCorrectType (null for non-null)
+	`mutation { rename(name: 5) { id } }`,                                    // ValuesOfCorrectType (mutation)
+	`query Q($u: User) { me { id } }`,                                        // VariablesAreInputTypes
+	`query Q($n: String) { me { friends(first: $n) { id } } }`,               // VariablesInAllowedPosition
+	`query Q($id: ID) { user(id: $id) { id } }`,                              // VariablesInAllowedPosition (nullable into non-null)
 }
 
 func Setup_C03_rules() { Setup_C03_gates() }
